@@ -20,7 +20,7 @@ func init() { checks["C16"] = c16 }
 func c16(args []string) {
 	c := chk.New("C16", "exploration", args)
 	c.Build(false)
-	c.Rule("generated graphs (<= 9 processes, file and parameter edges, ParamSource / ParamCombinator processes, independent branches): (1) every single in-port or parameter in-port left unconnected in turn (file in-ports also connected and then taken off again through the public Disconnect) -> Run must refuse before any command (exit != 0, empty command trace), while unconsumed out-ports are drained automatically (base run succeeds); (2) RunTo on every target set of size <= 2 plus random larger ones, addressed by name, by regex and by process value -> the set of processes with executed commands equals the reference's upstream closure over file and parameter connections, every task of it exactly once, files equal the closure's reference, no command of any other process; an out-port-less target behind a ParamCombinator one port of which lost its consumer (values > buffer); a target that depends on six staggered upstream tasks through FileGlobberDependent; bundled components: the in-ports of MapToTags, FileSplitter, Concatenator, StreamToSubStream and the dependency port of FileGlobberDependent left unconnected must be refused too, and CommandToParams (whose command writes a marker file) must not run its command when it is outside the closure or the workflow is refused. distinct_nontrivial = distinct (graph shape, omitted port) refusals in graphs where some other process could have executed + distinct (graph shape, target set, addressing mode) with a proper closure (neither empty nor everything)")
+	c.Rule("generated graphs (<= 9 processes, file and parameter edges, ParamSource / ParamCombinator processes, independent branches): (1) every single in-port or parameter in-port left unconnected in turn (file in-ports also connected and then taken off again through the public Disconnect) -> Run must refuse before any command (exit != 0, empty command trace), while unconsumed out-ports are drained automatically (base run succeeds); (2) RunTo on every target set of size <= 2 plus random larger ones, addressed by name, by regex and by process value -> the set of processes with executed commands equals the reference's upstream closure over file and parameter connections, every task of it exactly once, files equal the closure's reference, no command of any other process; targets 33 / 40 / 70 steps downstream of the source; a process without any port as target; an out-port-less target behind a ParamCombinator one port of which lost its consumer (values > buffer); a target that depends on six staggered upstream tasks through FileGlobberDependent; bundled components: the in-ports of MapToTags, FileSplitter, Concatenator, StreamToSubStream and the dependency port of FileGlobberDependent left unconnected must be refused too, and CommandToParams (whose command writes a marker file) must not run its command when it is outside the closure or the workflow is refused. distinct_nontrivial = distinct (graph shape, omitted port) refusals in graphs where some other process could have executed + distinct (graph shape, target set, addressing mode) with a proper closure (neither empty nor everything)")
 	c.Assume("unconnected ports in processes outside a RunTo closure are not judged (the property states the wiring check for Run)")
 	rng := c.Rand("c16")
 	type job struct {
@@ -299,6 +299,42 @@ func c16(args []string) {
 			s2.Run = spec.Run{Mode: []string{"runto", "runtoregex", "runtoprocs"}[rep%3], Targets: []string{[]string{"gatherer", "^gatherer$", "gatherer"}[rep%3]}}
 			jobs = append(jobs, &job{s: s2, exp: evalRef(s2, nil), cfg: Cfg{Buf: 3, Procs: 2, SoftSec: 8}, kind: "runto", what: s2.Run.Mode + " gatherer (feeders that are ancestors of feeders)"})
 		}
+	}
+	// deep pipelines: the target is 40 / 70 steps downstream of the source
+	for rep := 0; rep < c.Pick(2, 6); rep++ {
+		depth := []int{40, 70, 33}[rep%3]
+		s := &spec.Spec{Name: fmt.Sprintf("deep%d", depth), MaxTasks: 4, Sources: map[string]string{"deep.txt": "deep\n"}}
+		in, o1 := []spec.PortDecl{{Name: "in"}}, []spec.PortDecl{{Name: "out"}}
+		s.Procs = append(s.Procs, &spec.Proc{Name: "src", Kind: spec.KFileSource, Files: []string{"deep.txt"}})
+		prev := "src"
+		for k := 0; k < depth+2; k++ {
+			pn := fmt.Sprintf("d%02d", k)
+			s.Procs = append(s.Procs, &spec.Proc{Name: pn, Kind: spec.KCmd, Cmd: spec.BuildCmd(pn, in, o1, nil, nil, nil), Outs: []*spec.Out{{Port: "out", Pattern: pn + ".out"}}})
+			s.Conns = append(s.Conns, &spec.Conn{From: prev + ".out", To: pn + ".in"})
+			prev = pn
+		}
+		target := fmt.Sprintf("d%02d", depth-1)
+		s.Run = spec.Run{Mode: []string{"runto", "runtoprocs", "runtoregex"}[rep%3], Targets: []string{[]string{target, target, "^" + target + "$"}[rep%3]}}
+		jobs = append(jobs, &job{s: s, exp: evalRef(s, nil), cfg: Cfg{Buf: 3, Procs: 2, SoftSec: 10}, kind: "runto", what: fmt.Sprintf("%s %s (chain of %d steps)", s.Run.Mode, target, depth)})
+	}
+	// a process without any port (a set-up step) as target, alone and beside an ordinary target
+	for rep := 0; rep < c.Pick(3, 9); rep++ {
+		s := &spec.Spec{Name: "portless", MaxTasks: 2, Sources: map[string]string{"pl.txt": "pl\n"}}
+		in, o1 := []spec.PortDecl{{Name: "in"}}, []spec.PortDecl{{Name: "out"}}
+		s.Procs = append(s.Procs, &spec.Proc{Name: "src", Kind: spec.KFileSource, Files: []string{"pl.txt"}},
+			&spec.Proc{Name: "setup", Kind: []string{spec.KCmd, spec.KGoFunc}[rep%2], Cmd: spec.VcmdPath + " run id=setup sleep=" + []string{"5", "150"}[rep%2] + " extra=setup_done.marker"},
+			&spec.Proc{Name: "mk", Kind: spec.KCmd, Cmd: spec.BuildCmd("mk", in, o1, nil, nil, nil)},
+			&spec.Proc{Name: "later", Kind: spec.KCmd, Cmd: spec.BuildCmd("later", in, o1, nil, nil, nil)})
+		s.Conns = append(s.Conns, &spec.Conn{From: "src.out", To: "mk.in"}, &spec.Conn{From: "mk.out", To: "later.in"})
+		targets := [][]string{{"setup"}, {"setup", "mk"}, {"mk", "setup"}}[rep%3]
+		mode := []string{"runto", "runtoprocs", "runtoregex"}[(rep/3)%3]
+		if mode == "runtoregex" {
+			for k := range targets {
+				targets[k] = "^" + targets[k] + "$"
+			}
+		}
+		s.Run = spec.Run{Mode: mode, Targets: targets}
+		jobs = append(jobs, &job{s: s, exp: evalRef(s, nil), cfg: Cfg{Buf: 3, Procs: 2, SoftSec: 8}, kind: "runto", what: fmt.Sprintf("%s %v (a process without ports among the targets)", mode, targets)})
 	}
 	// the target has no out-ports (it becomes the driver) and gets its parameters from a ParamCombinator, one port of
 	// which only feeds an excluded process: those values - more than the buffer holds - have to be drained although no
